@@ -8,6 +8,12 @@
 //!
 //! Result notation for one recovery: `ok/<n>/<tail>/<fnv64 of the tx list>` or `err/<class>` where
 //! tail = C | N | A<lsn> and the tx list is `txid:commit_digest:first:last:count;...`.
+//!
+//! C10 modes: store (every byte prefix, store layer), host (every byte prefix, trusted host, faults,
+//!            crash-recover-continue), rewrite (kill during the truncation rewrite), bytes.
+//! C11 modes: flip (bit flips / zeroed ranges), edit (record delete/dup/swap/transplant at every
+//!            layer), api (recover_from_frames_and_commits on edited frame/commit vectors),
+//!            meta (ledger / manifest tampering), hostedit (edited host logs reopened by the host).
 #![allow(clippy::all)]
 use echo_verif_harness::*;
 use std::collections::BTreeMap;
@@ -53,14 +59,11 @@ fn fnv64(s: &str) -> u64 {
     h
 }
 
-static mut SCRATCH_N: u64 = 0;
+static SCRATCH_N: std::sync::atomic::AtomicU64 = std::sync::atomic::AtomicU64::new(0);
 fn scratch(tag: &str) -> PathBuf {
     let exe = std::env::args().next().unwrap_or_default();
     let bin = Path::new(&exe).file_name().and_then(|s| s.to_str()).unwrap_or("c10").to_string();
-    let n = unsafe {
-        SCRATCH_N += 1;
-        SCRATCH_N
-    };
+    let n = SCRATCH_N.fetch_add(1, std::sync::atomic::Ordering::Relaxed);
     let p = PathBuf::from(format!("/tmp/{}-{}-{}-{}", bin, std::process::id(), tag, n));
     let _ = fs::remove_dir_all(&p);
     fs::create_dir_all(&p).expect("scratch dir");
@@ -74,7 +77,7 @@ fn ledger_path(root: &Path) -> PathBuf {
     root.join("writer-epochs.ecwal")
 }
 
-/// Copies a WAL root (segment 1 + ledger [+ manifest]) with the segment replaced by `seg`.
+/// A WAL root holding segment 1 = `seg` and the given ledger / manifest files.
 fn make_root(dst: &Path, seg: &[u8], ledger: Option<&[u8]>, manifest: Option<&[u8]>) {
     let _ = fs::remove_dir_all(dst);
     fs::create_dir_all(dst.join("segments")).expect("mkdir");
@@ -85,6 +88,10 @@ fn make_root(dst: &Path, seg: &[u8], ledger: Option<&[u8]>, manifest: Option<&[u
     if let Some(m) = manifest {
         fs::write(dst.join("manifest.ecwal"), m).expect("write manifest");
     }
+}
+
+fn first_word(s: String) -> String {
+    s.split(|c: char| !c.is_alphanumeric()).next().unwrap_or("").to_string()
 }
 
 fn val_class(e: &WalValidationError) -> &'static str {
@@ -129,7 +136,7 @@ fn store_class(e: &WalStoreError) -> String {
         WalStoreError::WriterEpochLsnRegression => "store.epoch_lsn".into(),
         WalStoreError::WriterEpochFencingMismatch => "store.epoch_fencing".into(),
         WalStoreError::Io(_) => "store.io".into(),
-        other => format!("store.other[{}]", format!("{other:?}").split(|c: char| !c.is_alphanumeric()).next().unwrap_or("")),
+        other => format!("store.{}", first_word(format!("{other:?}"))),
     }
 }
 fn rec_class(e: &WalRecoveryError) -> String {
@@ -172,6 +179,10 @@ fn report_res(r: &Result<RecoveryScanReport, WalRecoveryError>) -> String {
         Err(e) => format!("err/{}", rec_class(e)),
     }
 }
+fn bytes_res(seg: &[u8]) -> (String, Option<Vec<String>>) {
+    let r = recover_wal_segment_bytes(WalSegmentId::from_raw(1), seg, RecoveryAccessMode::ReadOnly).map(|r| r.report);
+    (report_res(&r), r.ok().map(|rep| report_txs(&rep)))
+}
 
 fn rle(v: &[String]) -> String {
     let mut out = Vec::new();
@@ -189,6 +200,10 @@ fn rle(v: &[String]) -> String {
     } else {
         out.join(",")
     }
+}
+
+fn is_prefix(got: &[String], full: &[String]) -> bool {
+    got.len() <= full.len() && got[..] == full[..got.len()]
 }
 
 /// Offsets (exclusive ends) of the well-formed disk records of a segment, parsed independently
@@ -210,6 +225,62 @@ fn record_ends(seg: &[u8]) -> Vec<(usize, u8)> {
     }
     v
 }
+fn ends_str(ends: &[(usize, u8)]) -> String {
+    if ends.is_empty() {
+        "-".into()
+    } else {
+        ends.iter().map(|(e, k)| format!("{e}:{k}")).collect::<Vec<_>>().join(",")
+    }
+}
+fn uniq(mut fails: Vec<String>) -> String {
+    // the LSN hole left by an idle writer epoch makes every later recovery fail with
+    // LsnContinuityMismatch: report the root cause once, not each of its symptoms
+    if fails.iter().any(|f| f.starts_with("wal:idle-writer-epoch-skips-lsn")) {
+        fails.retain(|f| f.starts_with("wal:idle-writer-epoch-skips-lsn") || !f.contains("val.lsn"));
+    }
+    fails.sort();
+    fails.dedup_by_key(|f| f.split('[').next().unwrap_or("").to_string());
+    if fails.is_empty() {
+        "ok".into()
+    } else {
+        format!("FAIL:{}", fails.join(",").replace(' ', "_"))
+    }
+}
+fn list_usize(m: &BTreeMap<String, String>, k: &str, d: &[usize]) -> Vec<usize> {
+    m.get(k).map(|s| s.split(',').filter_map(|x| x.parse().ok()).collect()).unwrap_or_else(|| d.to_vec())
+}
+
+/// First LSN owned by the active writer epoch recorded in a ledger file (None if no active epoch).
+fn ledger_active_start(bytes: &[u8]) -> Option<u64> {
+    let p = bytes.get(16..bytes.len().checked_sub(32)?)?;
+    let mut o = 2usize;
+    let rd_u64 = |p: &[u8], o: usize| -> Option<u64> {
+        let mut b = [0u8; 8];
+        b.copy_from_slice(p.get(o..o + 8)?);
+        Some(u64::from_le_bytes(b))
+    };
+    let opt = |p: &[u8], o: usize, n: usize| -> Option<usize> {
+        match *p.get(o)? {
+            0 => Some(o + 1),
+            1 => Some(o + 1 + n),
+            _ => None,
+        }
+    };
+    let closed = rd_u64(p, o)? as usize;
+    o += 8;
+    for _ in 0..closed {
+        o += 128 + 8;
+        o = opt(p, o, 32)?;
+        o = opt(p, o, 32)?;
+        o += 32;
+        o = opt(p, o, 8)?;
+        o = opt(p, o, 32)?;
+    }
+    if *p.get(o)? != 1 {
+        return None;
+    }
+    rd_u64(p, o + 1 + 128)
+}
 
 // ------------------------------------------------------------------------------------------------
 // store-level workload: real FilesystemWalStore + real transaction builders
@@ -229,7 +300,8 @@ struct StoreRun {
     /// after every operation: (segment length, ledger bytes, number of acknowledged transactions)
     snaps: Vec<(usize, Vec<u8>, usize)>,
     acked: Vec<String>,
-    chain_const: bool,
+    /// the fresh epoch starts beyond the next free LSN (recovered next, epoch start)
+    epoch_skip: Option<(u64, u64)>,
 }
 
 fn kinds_for(txk: u8) -> (WalTransactionKind, WalAppendAuthority, Vec<WalRecordKind>, Vec<AffectedFrontierKind>) {
@@ -268,7 +340,7 @@ fn kinds_for(txk: u8) -> (WalTransactionKind, WalAppendAuthority, Vec<WalRecordK
 }
 
 impl StoreRun {
-    fn open(root: PathBuf, chain_const: bool) -> Result<Self, String> {
+    fn open(root: PathBuf) -> Result<Self, String> {
         let mut store = FilesystemWalStore::open(&root, WalSegmentId::from_raw(1)).map_err(|e| store_class(&e))?;
         let report = recover_filesystem_store(&root, RecoveryAccessMode::Writable).map_err(|e| rec_class(&e))?;
         let mut cur = Cursor { next_lsn: 0, prev_frame: digest("prev-frame:genesis"), prev_commit: digest("prev-commit:genesis") };
@@ -282,8 +354,13 @@ impl StoreRun {
             acked.push(tx_string(&t.commit, t.frames.len()));
         }
         let ep = store.acquire_fresh_writer_epoch(Lsn::from_raw(cur.next_lsn)).map_err(|e| store_class(&e))?;
+        let epoch_skip = if !report.transactions.is_empty() && ep.started_at_lsn.as_u64() > cur.next_lsn {
+            Some((cur.next_lsn, ep.started_at_lsn.as_u64()))
+        } else {
+            None
+        };
         cur.next_lsn = ep.started_at_lsn.as_u64();
-        let mut s = StoreRun { root, store, epoch: ep.epoch_id, cur, snaps: Vec::new(), acked, chain_const };
+        let mut s = StoreRun { root, store, epoch: ep.epoch_id, cur, snaps: Vec::new(), acked, epoch_skip };
         s.snap();
         Ok(s)
     }
@@ -294,11 +371,6 @@ impl StoreRun {
     }
     fn build(&self, label: &str, txk: u8, nframes: usize, pay: &[usize], rng: &mut Rng) -> WalCommittedTransaction {
         let (kind, auth, rks, fks) = kinds_for(txk);
-        let (pf, pc) = if self.chain_const {
-            (digest("previous-frame"), digest("previous-commit"))
-        } else {
-            (self.cur.prev_frame, self.cur.prev_commit)
-        };
         let mut b = WalTransactionBuilder::new(
             self.epoch,
             WalSegmentId::from_raw(1),
@@ -306,8 +378,8 @@ impl StoreRun {
             kind,
             auth,
             Lsn::from_raw(self.cur.next_lsn),
-            pf,
-            pc,
+            self.cur.prev_frame,
+            self.cur.prev_commit,
             WalDurabilityMode::StrictFilesystem,
             PayloadCodecId::from_hash(digest("codec")),
             PayloadSchemaId::from_hash(digest("schema")),
@@ -352,18 +424,22 @@ struct StoreLog {
     txv: Vec<WalCommittedTransaction>,
 }
 
-/// shape = frames per transaction, pay = payload sizes cycled over frames.
-fn build_store_log(seed: u64, shape: &[usize], pay: &[usize], chain_const: bool, reopen_at: &[usize]) -> Result<StoreLog, String> {
+/// shape = frames per transaction, pay = payload sizes cycled over frames, reopen_at = transaction
+/// indices before which the writer is closed and reopened (a fresh writer epoch).
+fn build_store_log(seed: u64, shape: &[usize], pay: &[usize], reopen_at: &[usize]) -> Result<StoreLog, String> {
     let root = scratch("store");
     let mut rng = Rng(seed);
-    let mut run = StoreRun::open(root.clone(), chain_const)?;
+    let mut run = StoreRun::open(root.clone())?;
     let mut txv = Vec::new();
     let mut all_snaps: Vec<(usize, Vec<u8>, usize)> = Vec::new();
     for (i, nf) in shape.iter().enumerate() {
         if reopen_at.contains(&i) {
             all_snaps.extend(run.snaps.drain(..));
             drop(run);
-            run = StoreRun::open(root.clone(), chain_const)?;
+            run = StoreRun::open(root.clone())?;
+            if let Some((a, b)) = run.epoch_skip {
+                return Err(format!("epoch-skip:{a}->{b}"));
+            }
         }
         let tx = run.build(&format!("{seed}:{i}"), (seed as u8).wrapping_add(i as u8), *nf, pay, &mut rng);
         txv.push(tx.clone());
@@ -377,40 +453,41 @@ fn build_store_log(seed: u64, shape: &[usize], pay: &[usize], chain_const: bool,
     let _ = fs::remove_dir_all(&root);
     Ok(StoreLog { seg, ledger, snaps: all_snaps, txs, txv })
 }
+fn store_log_from(m: &BTreeMap<String, String>) -> Result<StoreLog, String> {
+    let seed: u64 = m.get("seed").and_then(|s| s.parse().ok()).unwrap_or(1);
+    build_store_log(seed, &list_usize(m, "shape", &[1, 2]), &list_usize(m, "pay", &[4]), &list_usize(m, "reopen", &[]))
+}
 
-/// Ledger versions that can coexist with a segment of length k (see props/c10.py for the argument).
-fn ledgers_for(snaps: &[(usize, Vec<u8>, usize)], k: usize) -> Vec<(Vec<u8>, usize)> {
-    let mut out: Vec<(Vec<u8>, usize)> = Vec::new();
+/// Ledger versions that can coexist with a segment of length k: the ledger is rewritten (atomically)
+/// only after the commit marker has been written and synced, so the durable ledger is the one of
+/// the last operation that ended at or before k, or - exactly at an operation end - its predecessor.
+fn ledgers_for(snaps: &[(usize, Vec<u8>, usize)], k: usize) -> Vec<Vec<u8>> {
     let mut j = 0;
     for (i, s) in snaps.iter().enumerate() {
         if s.0 <= k {
             j = i;
         }
     }
-    out.push((snaps[j].1.clone(), snaps[j].2));
-    if j > 0 && snaps[j].0 == k && snaps[j - 1].1 != snaps[j].1 {
-        // the commit marker is durable, the ledger rewrite that follows it is not yet
-        out.push((snaps[j - 1].1.clone(), snaps[j].2));
+    let mut out = vec![snaps[j].1.clone()];
+    if j > 0 && snaps[j].0 == k && snaps[j - 1].1 != snaps[j].1 && snaps[j - 1].0 < k {
+        out.push(snaps[j - 1].1.clone());
     }
     out
 }
 
 fn run_store(m: &BTreeMap<String, String>) -> String {
     let seed: u64 = m.get("seed").and_then(|s| s.parse().ok()).unwrap_or(1);
-    let shape: Vec<usize> = m.get("shape").map(|s| s.split(',').filter_map(|x| x.parse().ok()).collect()).unwrap_or_else(|| vec![1, 2]);
-    let pay: Vec<usize> = m.get("pay").map(|s| s.split(',').filter_map(|x| x.parse().ok()).collect()).unwrap_or_else(|| vec![4]);
-    let reopen: Vec<usize> = m.get("reopen").map(|s| s.split(',').filter_map(|x| x.parse().ok()).collect()).unwrap_or_default();
     let fsmode = m.get("fs").map(String::as_str).unwrap_or("all");
-    let log = match build_store_log(seed, &shape, &pay, false, &reopen) {
+    let log = match store_log_from(m) {
         Ok(l) => l,
-        Err(e) => return format!("build=FAIL:{e} oracle=FAIL:wal:workload-build-failed[{e}]"),
+        Err(e) if e.starts_with("epoch-skip") => return format!("oracle=FAIL:wal:idle-writer-epoch-skips-lsn[{e}]"),
+        Err(e) => return format!("oracle=FAIL:wal:workload-build-failed[{e}]"),
     };
     let seg = &log.seg;
     let ends = record_ends(seg);
     let commit_ends: Vec<usize> = ends.iter().filter(|(_, k)| *k == 2).map(|(e, _)| *e).collect();
     let mut fails: Vec<String> = Vec::new();
     let mut pref = Vec::with_capacity(seg.len() + 1);
-    let mut fsres = Vec::with_capacity(seg.len() + 1);
     let mut fs_checked = 0usize;
     let dir = scratch("crash");
     for k in 0..=seg.len() {
@@ -425,110 +502,152 @@ fn run_store(m: &BTreeMap<String, String>) -> String {
                     fails.push(format!("wal:prefix-recovery-not-committed-prefix[k={k},got={},want={expect_n}]", got.len()));
                 }
                 let on_boundary = k == 0 || ends.iter().any(|(e, _)| *e == k);
-                let last_end_is_commit = k == 0 || ends.iter().rev().find(|(e, _)| *e <= k).map(|(_, kd)| *kd == 2).unwrap_or(true);
-                let clean = on_boundary && last_end_is_commit;
-                if clean != matches!(rep.tail_posture, RecoveryTailPosture::Clean) {
+                let last_is_commit = k == 0 || ends.iter().rev().find(|(e, _)| *e <= k).map(|(_, kd)| *kd == 2).unwrap_or(true);
+                if (on_boundary && last_is_commit) != matches!(rep.tail_posture, RecoveryTailPosture::Clean) {
                     fails.push(format!("wal:tail-posture-wrong[k={k}]"));
                 }
             }
             Err(e) => fails.push(format!("wal:prefix-recovery-error[k={k},{}]", rec_class(e))),
         }
         pref.push(s1.clone());
-        // layer 2/3: filesystem store on a truncated copy with every coexisting ledger version
+        // layers 2/3: the filesystem store on a truncated copy with every coexisting ledger version
+        let near = ends.iter().any(|(e, _)| (*e as i64 - k as i64).abs() <= 2) || k <= 1;
         let do_fs = match fsmode {
             "none" => false,
             "all" => true,
-            _ => k % 7 == 0 || ends.iter().any(|(e, _)| (*e as i64 - k as i64).abs() <= 2),
+            _ => k % 9 == 0 || near,
         };
-        if do_fs {
-            let mut agg = Vec::new();
-            for (led, _) in ledgers_for(&log.snaps, k) {
-                fs_checked += 1;
-                make_root(&dir, &seg[..k], Some(&led), None);
-                let ro = recover_filesystem_store(&dir, RecoveryAccessMode::ReadOnly);
-                let sro = report_res(&ro);
-                if sro != s1 {
-                    fails.push(format!("wal:fs-recovery-differs-from-bytes[k={k},{sro},{s1}]"));
-                }
-                let rw = recover_filesystem_store(&dir, RecoveryAccessMode::Writable);
-                let srw = report_res(&rw);
-                if srw != s1 {
-                    fails.push(format!("wal:fs-writable-recovery-differs[k={k},{srw}]"));
-                }
-                // idempotence: recovering the repaired store gives the same transactions, clean tail
-                let again = recover_filesystem_store(&dir, RecoveryAccessMode::ReadOnly);
-                match (&rw, &again) {
-                    (Ok(a), Ok(b)) => {
-                        if report_txs(a) != report_txs(b) || !matches!(b.tail_posture, RecoveryTailPosture::Clean) {
-                            fails.push(format!("wal:recovery-not-idempotent[k={k}]"));
-                        }
-                    }
-                    (Ok(_), Err(e)) => fails.push(format!("wal:recovery-not-idempotent[k={k},second={}]", rec_class(e))),
-                    _ => {}
-                }
-                // continue: reopen as a writer, append one more transaction, recover again
-                match StoreRun::open(dir.clone(), false) {
-                    Ok(mut run) => {
-                        if run.acked[..] != log.txs[..expect_n] {
-                            fails.push(format!("wal:reopen-cursor-not-committed-prefix[k={k}]"));
-                        }
-                        let mut rng = Rng(seed ^ 0x5eed);
-                        let tx = run.build(&format!("cont:{k}"), 1, 2, &[3], &mut rng);
-                        match run.append(tx) {
-                            Ok(()) => {
-                                let want = run.acked.clone();
-                                drop(run);
-                                match recover_filesystem_store(&dir, RecoveryAccessMode::ReadOnly) {
-                                    Ok(rep) => {
-                                        if report_txs(&rep) != want || !matches!(rep.tail_posture, RecoveryTailPosture::Clean) {
-                                            fails.push(format!("wal:continue-after-recovery-lost-history[k={k}]"));
-                                        }
-                                    }
-                                    Err(e) => fails.push(format!("wal:continue-after-recovery-unrecoverable[k={k},{}]", rec_class(&e))),
-                                }
-                            }
-                            Err(e) => fails.push(format!("wal:append-after-recovery-failed[k={k},{}]", store_class(&e))),
-                        }
-                    }
-                    Err(e) => fails.push(format!("wal:reopen-after-crash-failed[k={k},{e}]")),
-                }
-                agg.push(sro);
+        if !do_fs {
+            continue;
+        }
+        for led in ledgers_for(&log.snaps, k) {
+            fs_checked += 1;
+            make_root(&dir, &seg[..k], Some(&led), None);
+            let ro = recover_filesystem_store(&dir, RecoveryAccessMode::ReadOnly);
+            let sro = report_res(&ro);
+            if sro != s1 {
+                fails.push(format!("wal:fs-recovery-differs-from-bytes[k={k},{sro},{s1}]"));
             }
-            agg.dedup();
-            fsres.push(agg.join("|"));
-        } else {
-            fsres.push("skip".into());
+            let rw = recover_filesystem_store(&dir, RecoveryAccessMode::Writable);
+            if report_res(&rw) != s1 {
+                fails.push(format!("wal:fs-writable-recovery-differs[k={k},{}]", report_res(&rw)));
+            }
+            // idempotence: recovering the repaired store gives the same transactions and a clean tail
+            let again = recover_filesystem_store(&dir, RecoveryAccessMode::ReadOnly);
+            match (&rw, &again) {
+                (Ok(a), Ok(b)) => {
+                    if report_txs(a) != report_txs(b) || !matches!(b.tail_posture, RecoveryTailPosture::Clean) {
+                        fails.push(format!("wal:recovery-not-idempotent[k={k}]"));
+                    }
+                }
+                (Ok(_), Err(e)) => fails.push(format!("wal:recovery-not-idempotent[k={k},second={}]", rec_class(e))),
+                _ => {}
+            }
+            // continue: reopen as a writer, append one more transaction, recover again
+            match StoreRun::open(dir.clone()) {
+                Ok(mut run) => {
+                    if run.acked[..] != log.txs[..expect_n] {
+                        fails.push(format!("wal:reopen-cursor-not-committed-prefix[k={k}]"));
+                    }
+                    if let Some((a, b)) = run.epoch_skip {
+                        fails.push(format!("wal:idle-writer-epoch-skips-lsn[k={k},next={a},epoch_start={b}]"));
+                        continue;
+                    }
+                    let mut rng = Rng(seed ^ 0x5eed);
+                    let tx = run.build(&format!("cont:{k}"), 1, 2, &[3], &mut rng);
+                    match run.append(tx) {
+                        Ok(()) => {
+                            let want = run.acked.clone();
+                            drop(run);
+                            match recover_filesystem_store(&dir, RecoveryAccessMode::ReadOnly) {
+                                Ok(rep) => {
+                                    if report_txs(&rep) != want || !matches!(rep.tail_posture, RecoveryTailPosture::Clean) {
+                                        fails.push(format!("wal:continue-after-recovery-lost-history[k={k}]"));
+                                    }
+                                }
+                                Err(e) => fails.push(format!("wal:continue-after-recovery-unrecoverable[k={k},{}]", rec_class(&e))),
+                            }
+                        }
+                        Err(e) => fails.push(format!("wal:append-after-recovery-failed[k={k},{}]", store_class(&e))),
+                    }
+                }
+                Err(e) => fails.push(format!("wal:reopen-after-crash-failed[k={k},{e}]")),
+            }
         }
     }
     let _ = fs::remove_dir_all(&dir);
-    let fs_same = fsres.iter().zip(pref.iter()).all(|(a, b)| a == b || a == "skip");
-    fails.sort();
-    fails.dedup_by_key(|f| f.split('[').next().unwrap_or("").to_string());
     format!(
-        "len={} seg={} ends={} txs={} pref={} fs={} fschecked={} oracle={}",
+        "len={} seg={} ends={} txs={} pref={} fschecked={} oracle={}",
         seg.len(),
         tohex(seg),
-        ends.iter().map(|(e, k)| format!("{e}:{k}")).collect::<Vec<_>>().join(","),
+        ends_str(&ends),
         if log.txs.is_empty() { "-".into() } else { log.txs.join(";") },
         rle(&pref),
-        if fs_same { "same".to_string() } else { rle(&fsres) },
         fs_checked,
-        if fails.is_empty() { "ok".into() } else { format!("FAIL:{}", fails.join(",")) }
+        uniq(fails)
     )
 }
 
-// ------------------------------------------------------------------------------------------------
-// raw bytes: recover a given byte string (model correspondence on arbitrary / damaged input)
+/// A process killed while `rewrite_segment_records` runs: the old segment files are already
+/// unlinked, the new file holds the records appended so far.
+fn run_rewrite(m: &BTreeMap<String, String>) -> String {
+    let log = match store_log_from(m) {
+        Ok(l) => l,
+        Err(e) => return format!("oracle=FAIL:wal:workload-build-failed[{e}]"),
+    };
+    let cut: usize = m.get("cut").and_then(|s| s.parse().ok()).unwrap_or(20);
+    let seg = &log.seg[..log.seg.len().saturating_sub(cut)];
+    let dir = scratch("rewrite");
+    make_root(&dir, seg, Some(&log.ledger), None);
+    let mut fails = Vec::new();
+    let before = recover_filesystem_store(&dir, RecoveryAccessMode::ReadOnly);
+    let acked: Vec<String> = before.as_ref().map(report_txs).unwrap_or_default();
+    let rw = recover_filesystem_store(&dir, RecoveryAccessMode::Writable);
+    let repaired = fs::read(seg_path(&dir)).unwrap_or_default();
+    let rends = record_ends(&repaired);
+    let mut states = Vec::new();
+    // kill points: after the unlink (empty / missing file) and after every appended record
+    let mut cuts: Vec<usize> = vec![0];
+    cuts.extend(rends.iter().map(|(e, _)| *e));
+    for c in &cuts {
+        make_root(&dir, &repaired[..*c], Some(&log.ledger), None);
+        let r = recover_filesystem_store(&dir, RecoveryAccessMode::ReadOnly);
+        let s = report_res(&r);
+        match &r {
+            Ok(rep) => {
+                let got = report_txs(rep);
+                if got.len() < acked.len() {
+                    fails.push(format!(
+                        "wal:repair-rewrite-not-crash-atomic[records_written={},recovered={},acknowledged={}]",
+                        rends.iter().filter(|(e, _)| e <= c).count(),
+                        got.len(),
+                        acked.len()
+                    ));
+                }
+            }
+            Err(e) => fails.push(format!("wal:repair-rewrite-kill-unrecoverable[{}]", rec_class(e))),
+        }
+        states.push(s);
+    }
+    let _ = fs::remove_dir_all(&dir);
+    format!(
+        "len={} cutseg={} before={} after={} repaired={} rends={} kills={} oracle={}",
+        seg.len(),
+        tohex(seg),
+        report_res(&before),
+        report_res(&rw),
+        tohex(&repaired),
+        ends_str(&rends),
+        states.join(";"),
+        uniq(fails)
+    )
+}
 
 fn run_bytes(m: &BTreeMap<String, String>) -> String {
     let seg = unhex(m.get("seg").map(String::as_str).unwrap_or("-"));
-    let sid: u64 = m.get("sid").and_then(|s| s.parse().ok()).unwrap_or(1);
-    let r = recover_wal_segment_bytes(WalSegmentId::from_raw(sid), &seg, RecoveryAccessMode::ReadOnly).map(|r| r.report);
-    let txs = match &r {
-        Ok(rep) => report_txs(rep).join(";"),
-        Err(_) => String::new(),
-    };
-    format!("res={} txs={} oracle=ok", report_res(&r), if txs.is_empty() { "-".into() } else { txs })
+    let (res, txs) = bytes_res(&seg);
+    let t = txs.unwrap_or_default().join(";");
+    format!("res={} txs={} oracle=ok", res, if t.is_empty() { "-".into() } else { t })
 }
 
 // ------------------------------------------------------------------------------------------------
@@ -688,40 +807,45 @@ fn envelope(i: usize) -> IngressEnvelope {
 
 fn host_err(e: &TrustedRuntimeHostError) -> String {
     match e {
-        TrustedRuntimeHostError::Wal(w) => match w {
-            TrustedRuntimeWalError::Recovery(r) => format!("wal.recovery.{}", rec_class(r)),
-            TrustedRuntimeWalError::Store(s) => format!("wal.store.{}", store_class(s)),
-            other => {
-                let d = format!("{other:?}");
-                format!("wal.{}", d.split(|c: char| !c.is_alphanumeric()).next().unwrap_or("other"))
-            }
-        },
-        other => {
-            let d = format!("{other:?}");
-            format!("host.{}", d.split(|c: char| !c.is_alphanumeric()).next().unwrap_or("other"))
-        }
+        TrustedRuntimeHostError::Wal(w) => wal_err(w),
+        other => format!("host.{}", first_word(format!("{other:?}"))),
+    }
+}
+fn wal_err(w: &TrustedRuntimeWalError) -> String {
+    match w {
+        TrustedRuntimeWalError::Recovery(r) => format!("wal.recovery.{}", rec_class(r)),
+        TrustedRuntimeWalError::Store(s) => format!("wal.store.{}", store_class(s)),
+        other => format!("wal.{}", first_word(format!("{other:?}"))),
     }
 }
 
-fn open_host(root: &Path, plan: Option<FilesystemWalFaultPlan>) -> Result<TrustedRuntimeHost, String> {
+fn open_host(root: &Path) -> Result<TrustedRuntimeHost, String> {
     let mut host = TrustedRuntimeHost::new(fresh_runtime(), empty_engine()).map_err(|e| host_err(&e))?;
-    let cfg = match plan {
-        Some(p) => TrustedRuntimeWalConfig::filesystem_with_fault_plan_for_test(root, p),
-        None => TrustedRuntimeWalConfig::filesystem(root),
-    };
-    host.enable_runtime_wal(cfg).map_err(|e| host_err(&e))?;
-    host.register_contract_package(package()).map_err(|e| format!("register:{e:?}"))?;
+    host.enable_runtime_wal(TrustedRuntimeWalConfig::filesystem(root)).map_err(|e| host_err(&e))?;
+    host.register_contract_package(package()).map_err(|e| format!("register.{}", first_word(format!("{e:?}"))))?;
     Ok(host)
+}
+
+/// Did the epoch acquired by the last open start beyond the next free LSN of the committed log?
+fn host_epoch_skip(root: &Path) -> Option<(u64, u64)> {
+    let led = fs::read(ledger_path(root)).ok()?;
+    let start = ledger_active_start(&led)?;
+    let rep = recover_filesystem_store(root, RecoveryAccessMode::ReadOnly).ok()?;
+    let next = rep.last_committed_lsn()?.as_u64() + 1;
+    if start > next {
+        Some((next, start))
+    } else {
+        None
+    }
 }
 
 /// What a host exposes that the property talks about.
 #[derive(Clone, PartialEq, Eq, Debug)]
 struct Obs {
-    /// submission index -> (submission id, outcome with the non-durable staging detail removed)
+    /// submission index -> (submission id, outcome; the volatile staging detail of Pending removed)
     subs: BTreeMap<usize, (Hash, String)>,
     state_root: Hash,
     frontier_tick: u64,
-    global_tick: u64,
     committed: usize,
 }
 
@@ -730,11 +854,11 @@ fn outcome_canon(o: &IntentOutcome) -> String {
         IntentOutcome::Pending { submission_id, submission_generation, .. } => {
             format!("pending:{}:{:?}", hex::encode(submission_id), submission_generation)
         }
-        other => format!("{other:?}"),
+        other => format!("{other:?}").replace(' ', ""),
     }
 }
 
-fn observe(host: &mut TrustedRuntimeHost, ids: &BTreeMap<usize, Hash>) -> Result<Obs, String> {
+fn observe(host: &mut TrustedRuntimeHost, ids: &BTreeMap<usize, Hash>) -> Result<(Obs, u64), String> {
     let mut subs = BTreeMap::new();
     for (i, id) in ids {
         if host.runtime().witnessed_submission(id).is_some() {
@@ -750,10 +874,10 @@ fn observe(host: &mut TrustedRuntimeHost, ids: &BTreeMap<usize, Hash>) -> Result
         .runtime_wal()
         .ok_or("no wal")?
         .recover_read_only()
-        .map_err(|e| format!("recover_read_only:{e:?}"))?
+        .map_err(|e| format!("recover_read_only.{}", wal_err(&e)))?
         .certificate
         .committed_transactions_replayed as usize;
-    Ok(Obs { subs, state_root, frontier_tick, global_tick, committed })
+    Ok((Obs { subs, state_root, frontier_tick, committed }, global_tick))
 }
 
 #[derive(Clone, Debug)]
@@ -763,6 +887,8 @@ enum Op {
     Tick,
     Reopen,
     Fault(FilesystemWalFaultTarget),
+    /// crash inside the previous operation: keep all but the last n bytes it wrote
+    Kill(usize),
 }
 fn parse_ops(s: &str) -> Vec<Op> {
     s.split(',')
@@ -772,8 +898,8 @@ fn parse_ops(s: &str) -> Vec<Op> {
             match h {
                 "s" => Op::Submit(r.parse().unwrap_or(0)),
                 "g" => Op::Stage(r.parse().unwrap_or(0)),
-                "t" => Op::Tick,
                 "R" => Op::Reopen,
+                "K" => Op::Kill(r.parse().unwrap_or(1)),
                 "F" => Op::Fault(match r {
                     "a" => FilesystemWalFaultTarget::AppendFrame,
                     "f" => FilesystemWalFaultTarget::FlushCommit,
@@ -786,16 +912,52 @@ fn parse_ops(s: &str) -> Vec<Op> {
         .collect()
 }
 
+type HostSnap = (usize, Vec<u8>, Obs, BTreeMap<usize, Hash>);
+
 struct HostRun {
     root: PathBuf,
     host: Option<TrustedRuntimeHost>,
     ids: BTreeMap<usize, Hash>,
-    /// what the caller was told: submission index acknowledged / tick published
+    /// what the caller was told: submission index acknowledged
     acked: BTreeMap<usize, Hash>,
     log: Vec<String>,
+    fails: Vec<String>,
+    snaps: Vec<HostSnap>,
+    armed: bool,
+    last_seg: Vec<u8>,
+    /// the segment was rewritten by a repair: (snapshot index, file length right after the rewrite)
+    rewrite: (usize, usize),
 }
 impl HostRun {
+    fn start(root: PathBuf) -> Result<Self, String> {
+        let host = open_host(&root)?;
+        let mut r = HostRun { root, host: Some(host), ids: BTreeMap::new(), acked: BTreeMap::new(), log: Vec::new(), fails: Vec::new(), snaps: Vec::new(), armed: false, last_seg: Vec::new(), rewrite: (0, 0) };
+        r.snap()?;
+        Ok(r)
+    }
+    fn snap(&mut self) -> Result<(), String> {
+        let seg = fs::read(seg_path(&self.root)).unwrap_or_default();
+        let led = fs::read(ledger_path(&self.root)).unwrap_or_default();
+        let ids = self.ids.clone();
+        let (o, _) = observe(self.host.as_mut().ok_or("closed")?, &ids)?;
+        if !seg.starts_with(&self.last_seg) {
+            self.rewrite = (self.snaps.len(), seg.len());
+        }
+        self.last_seg = seg.clone();
+        self.snaps.push((seg.len(), led, o, self.acked.clone()));
+        Ok(())
+    }
+    fn reopen(&mut self) -> Result<(), String> {
+        self.host = None;
+        self.host = Some(open_host(&self.root)?);
+        if let Some((a, b)) = host_epoch_skip(&self.root) {
+            self.fails.push(format!("wal:idle-writer-epoch-skips-lsn[next={a},epoch_start={b}]"));
+        }
+        Ok(())
+    }
     fn apply(&mut self, op: &Op) -> Result<(), String> {
+        let before = if self.armed { self.snaps.last().map(|s| s.2.clone()) } else { None };
+        let mut failed = false;
         match op {
             Op::Submit(i) => {
                 let host = self.host.as_mut().ok_or("closed")?;
@@ -805,7 +967,10 @@ impl HostRun {
                         self.acked.insert(*i, h.submission_id);
                         self.log.push(format!("s{i}:{}", if h.duplicate { "dup" } else { "ack" }));
                     }
-                    Err(e) => self.log.push(format!("s{i}:err.{}", host_err(&e))),
+                    Err(e) => {
+                        failed = true;
+                        self.log.push(format!("s{i}:err.{}", host_err(&e)))
+                    }
                 }
             }
             Op::Stage(i) => {
@@ -813,7 +978,7 @@ impl HostRun {
                 if let Some(id) = self.ids.get(i).copied() {
                     match host.admit_installed_contract_submission(id) {
                         Ok(_) => self.log.push(format!("g{i}:ok")),
-                        Err(e) => self.log.push(format!("g{i}:err.{}", format!("{e:?}").split(|c: char| !c.is_alphanumeric()).next().unwrap_or("x"))),
+                        Err(e) => self.log.push(format!("g{i}:err.{}", first_word(format!("{e:?}")))),
                     }
                 } else {
                     self.log.push(format!("g{i}:skip"));
@@ -821,100 +986,127 @@ impl HostRun {
             }
             Op::Tick => {
                 let host = self.host.as_mut().ok_or("closed")?;
-                match host.run_until_idle(6) {
+                match host.run_until_idle(8) {
                     Ok(r) => self.log.push(format!("t:{}", r.committed_steps)),
-                    Err(e) => self.log.push(format!("t:err.{}", host_err(&e))),
+                    Err(e) => {
+                        failed = true;
+                        self.log.push(format!("t:err.{}", host_err(&e)))
+                    }
                 }
             }
             Op::Reopen => {
-                self.host = None;
-                self.host = Some(open_host(&self.root, None)?);
+                self.reopen()?;
                 self.log.push("R:ok".into());
             }
             Op::Fault(t) => {
                 let host = self.host.as_mut().ok_or("closed")?;
-                host.inject_runtime_wal_filesystem_fault_for_test(FilesystemWalFaultPlan::fail_next(*t))
-                    .map_err(|e| host_err(&e))?;
+                host.inject_runtime_wal_filesystem_fault_for_test(FilesystemWalFaultPlan::fail_next(*t)).map_err(|e| host_err(&e))?;
                 self.log.push(format!("F:{t:?}"));
+                self.armed = true;
+                return Ok(());
+            }
+            Op::Kill(n) => {
+                // the previous operation is cut short: its last n bytes never reached the disk, its
+                // ledger update did not happen, and its acknowledgement was never returned
+                let cur = self.snaps.len() - 1;
+                if cur == 0 {
+                    return Ok(());
+                }
+                let (len, _, _, _) = self.snaps[cur].clone();
+                let (plen, pled, _, packed) = self.snaps[cur - 1].clone();
+                let keep = len.saturating_sub(*n).max(plen);
+                self.host = None;
+                let seg = fs::read(seg_path(&self.root)).unwrap_or_default();
+                if keep < len {
+                    fs::write(seg_path(&self.root), &seg[..keep.min(seg.len())]).map_err(|e| e.to_string())?;
+                    fs::write(ledger_path(&self.root), &pled).map_err(|e| e.to_string())?;
+                    self.acked = packed;
+                }
+                self.reopen()?;
+                self.log.push(format!("K:{}", len - keep));
+                // everything acknowledged must still be there
+                let ids = self.ids.clone();
+                let (o, _) = observe(self.host.as_mut().ok_or("closed")?, &ids)?;
+                for (i, id) in &self.acked {
+                    if !o.subs.contains_key(i) {
+                        self.fails.push(format!("wal:acked-submission-lost[after-kill,s{i},{}]", hex::encode(&id[..4])));
+                    }
+                }
             }
         }
-        Ok(())
+        if let Some(b) = before {
+            self.armed = false;
+            // an operation that reported failure must leave nothing visible
+            if failed {
+                let ids = self.ids.clone();
+                let (o, _) = observe(self.host.as_mut().ok_or("closed")?, &ids)?;
+                if o.subs != b.subs || o.state_root != b.state_root || o.committed != b.committed {
+                    self.fails.push(format!("wal:failed-operation-left-visible-state[{op:?}]"));
+                }
+            }
+        }
+        self.snap()
     }
 }
 
-fn run_host(m: &BTreeMap<String, String>) -> String {
+fn parse_host(m: &BTreeMap<String, String>) -> (Vec<Op>, PathBuf, Result<HostRun, String>) {
     let ops = parse_ops(m.get("ops").map(String::as_str).unwrap_or("s0,g0,t"));
-    let stride: usize = m.get("stride").and_then(|s| s.parse().ok()).unwrap_or(1);
-    let cont = m.get("cont").map(String::as_str).unwrap_or("bound");
     let root = scratch("host");
-    let mut fails: Vec<String> = Vec::new();
-    let host = match open_host(&root, None) {
-        Ok(h) => h,
-        Err(e) => return format!("oracle=FAIL:wal:host-open-failed[{e}]"),
-    };
-    let mut run = HostRun { root: root.clone(), host: Some(host), ids: BTreeMap::new(), acked: BTreeMap::new(), log: Vec::new() };
-    // snapshots: (segment length, ledger bytes, observation, acked set)
-    let mut snaps: Vec<(usize, Vec<u8>, Obs, BTreeMap<usize, Hash>)> = Vec::new();
-    let snap = |run: &mut HostRun| -> Result<(usize, Vec<u8>, Obs, BTreeMap<usize, Hash>), String> {
-        let seg = fs::read(seg_path(&run.root)).unwrap_or_default();
-        let led = fs::read(ledger_path(&run.root)).unwrap_or_default();
-        let ids = run.ids.clone();
-        let o = observe(run.host.as_mut().ok_or("closed")?, &ids)?;
-        Ok((seg.len(), led, o, run.acked.clone()))
-    };
-    match snap(&mut run) {
-        Ok(s) => snaps.push(s),
-        Err(e) => return format!("oracle=FAIL:wal:host-observe-failed[{e}]"),
-    }
-    for op in &ops {
-        if let Err(e) = run.apply(op) {
-            fails.push(format!("wal:host-op-failed[{op:?},{e}]"));
-            break;
-        }
-        match snap(&mut run) {
-            Ok(s) => snaps.push(s),
-            Err(e) => {
-                fails.push(format!("wal:host-observe-failed[{e}]"));
+    let mut run = HostRun::start(root.clone());
+    if let Ok(r) = run.as_mut() {
+        for op in &ops {
+            if let Err(e) = r.apply(op) {
+                r.fails.push(format!("wal:host-op-failed[{op:?},{e}]"));
                 break;
             }
         }
+        r.host = None;
     }
+    (ops, root, run)
+}
+
+fn run_host(m: &BTreeMap<String, String>) -> String {
+    let stride: usize = m.get("stride").and_then(|s| s.parse().ok()).unwrap_or(1);
+    let cont = m.get("cont").map(String::as_str).unwrap_or("bound");
+    let (ops, root, run) = parse_host(m);
+    let mut run = match run {
+        Ok(r) => r,
+        Err(e) => return format!("oracle=FAIL:wal:host-open-failed[{e}]"),
+    };
+    let mut fails = std::mem::take(&mut run.fails);
+    let snaps = std::mem::take(&mut run.snaps);
     let final_obs = snaps.last().map(|s| s.2.clone());
     let all_ids = run.ids.clone();
-    run.host = None;
     let seg = fs::read(seg_path(&root)).unwrap_or_default();
     let ends = record_ends(&seg);
-    // segment lengths must never shrink during an uninterrupted run, except by a repair rewrite
+    let (rw_snap, rw_floor) = run.rewrite;
     let mut pref = Vec::new();
     let dir = scratch("hcrash");
-    let mut reopened = 0usize;
-    let mut continued = 0usize;
+    let dir2 = scratch("hcont");
+    let (mut reopened, mut continued) = (0usize, 0usize);
     for k in 0..=seg.len() {
-        let r1 = recover_wal_segment_bytes(WalSegmentId::from_raw(1), &seg[..k], RecoveryAccessMode::ReadOnly).map(|r| r.report);
-        pref.push(report_res(&r1));
-        let near = ends.iter().any(|(e, _)| (*e as i64 - k as i64).abs() <= 1) || k == 0;
-        if !(k % stride == 0 || near) {
+        let (s1, _) = bytes_res(&seg[..k]);
+        pref.push(s1);
+        let near = ends.iter().any(|(e, _)| (*e as i64 - k as i64).abs() <= 1) || k <= 1;
+        // bytes below rw_floor were laid out by a repair rewrite: prefixes of them are states of a kill
+        // *during* that rewrite (mode=rewrite covers those), not of the acknowledged history
+        if !(k % stride == 0 || near) || k < rw_floor {
             continue;
         }
-        // which snapshot is the durable one at this crash point
-        let mut j = 0;
+        let mut j = rw_snap;
         for (i, s) in snaps.iter().enumerate() {
-            if s.0 <= k {
+            if i >= rw_snap && s.0 <= k {
                 j = i;
             }
         }
-        // a repair rewrite (after an injected fault) may shrink the file; only use monotone histories
-        if snaps.iter().take(j + 1).any(|s| s.0 > snaps[j].0) {
-            continue;
-        }
         let mut variants = vec![snaps[j].1.clone()];
-        if j > 0 && snaps[j].0 == k && snaps[j - 1].1 != snaps[j].1 {
+        if j > 0 && snaps[j].0 == k && snaps[j - 1].1 != snaps[j].1 && snaps[j - 1].0 < k {
             variants.push(snaps[j - 1].1.clone());
         }
         for led in variants {
             make_root(&dir, &seg[..k], Some(&led), None);
             let want = &snaps[j].2;
-            let mut host = match open_host(&dir, None) {
+            let mut host = match open_host(&dir) {
                 Ok(h) => h,
                 Err(e) => {
                     fails.push(format!("wal:host-reopen-after-crash-failed[k={k},{e}]"));
@@ -922,8 +1114,12 @@ fn run_host(m: &BTreeMap<String, String>) -> String {
                 }
             };
             reopened += 1;
+            let skip = host_epoch_skip(&dir);
+            if let Some((a, b)) = skip {
+                fails.push(format!("wal:idle-writer-epoch-skips-lsn[k={k},next={a},epoch_start={b}]"));
+            }
             match observe(&mut host, &all_ids) {
-                Ok(got) => {
+                Ok((got, _)) => {
                     for (i, id) in &snaps[j].3 {
                         if !got.subs.contains_key(i) {
                             fails.push(format!("wal:acked-submission-lost[k={k},s{i},{}]", hex::encode(&id[..4])));
@@ -934,8 +1130,11 @@ fn run_host(m: &BTreeMap<String, String>) -> String {
                     }
                     if got != *want {
                         fails.push(format!(
-                            "wal:recovered-host-differs-from-acked-state[k={k},root={},tick={}/{},committed={}/{}]",
-                            got.state_root == want.state_root, got.global_tick, want.global_tick, got.committed, want.committed
+                            "wal:recovered-host-differs-from-acked-state[k={k},root={},subs={},committed={}/{}]",
+                            got.state_root == want.state_root,
+                            got.subs == want.subs,
+                            got.committed,
+                            want.committed
                         ));
                     }
                 }
@@ -943,97 +1142,593 @@ fn run_host(m: &BTreeMap<String, String>) -> String {
             }
             // idempotence: a second recovery of the (now repaired) directory sees the same thing
             drop(host);
-            let mut host2 = match open_host(&dir, None) {
-                Ok(h) => h,
-                Err(e) => {
-                    fails.push(format!("wal:second-recovery-failed[k={k},{e}]"));
-                    continue;
-                }
-            };
-            match observe(&mut host2, &all_ids) {
-                Ok(got) => {
-                    if got != *want {
-                        fails.push(format!("wal:host-recovery-not-idempotent[k={k}]"));
+            match open_host(&dir) {
+                Ok(mut host2) => match observe(&mut host2, &all_ids) {
+                    Ok((got, _)) => {
+                        if got != *want {
+                            fails.push(format!("wal:host-recovery-not-idempotent[k={k}]"));
+                        }
                     }
-                }
-                Err(e) => fails.push(format!("wal:second-recovery-observe-failed[k={k},{e}]")),
+                    Err(e) => fails.push(format!("wal:second-recovery-observe-failed[k={k},{e}]")),
+                },
+                Err(e) => fails.push(format!("wal:second-recovery-failed[k={k},{e}]")),
             }
-            // continue: retry every submission (duplicates must be recognised), finish the workload
+            // continue (on a fresh copy, one recovery only): retry every submission, finish the workload
             let do_cont = match cont {
                 "none" => false,
                 "all" => true,
                 _ => near,
             };
-            if do_cont {
-                continued += 1;
-                let mut run2 = HostRun { root: dir.clone(), host: Some(host2), ids: BTreeMap::new(), acked: BTreeMap::new(), log: Vec::new() };
-                let mut ok = true;
-                for op in ops.iter().filter(|o| !matches!(o, Op::Fault(_))) {
-                    if let Err(e) = run2.apply(op) {
-                        fails.push(format!("wal:continue-op-failed[k={k},{op:?},{e}]"));
-                        ok = false;
-                        break;
-                    }
+            if !do_cont || skip.is_some() {
+                continue;
+            }
+            continued += 1;
+            make_root(&dir2, &seg[..k], Some(&led), None);
+            let mut run2 = match HostRun::start(dir2.clone()) {
+                Ok(r) => r,
+                Err(e) => {
+                    fails.push(format!("wal:host-reopen-after-crash-failed[k={k},{e}]"));
+                    continue;
                 }
-                if ok {
-                    for (i, id) in &snaps[j].3 {
-                        if run2.ids.get(i) != Some(id) {
-                            fails.push(format!("wal:retry-not-deduplicated[k={k},s{i}]"));
-                        }
-                        if !run2.log.iter().any(|l| l == &format!("s{i}:dup")) {
-                            fails.push(format!("wal:retry-of-acked-submission-not-duplicate[k={k},s{i}]"));
-                        }
-                    }
-                    let ids2 = run2.ids.clone();
-                    match (observe(run2.host.as_mut().unwrap(), &ids2), &final_obs) {
-                        (Ok(got), Some(fin)) => {
-                            if got.subs != fin.subs || got.state_root != fin.state_root || got.frontier_tick != fin.frontier_tick {
-                                fails.push(format!(
-                                    "wal:continued-host-diverges[k={k},root={},subs={},log={}]",
-                                    got.state_root == fin.state_root,
-                                    got.subs == fin.subs,
-                                    run2.log.join("/")
-                                ));
-                            }
-                        }
-                        (Err(e), _) => fails.push(format!("wal:continue-observe-failed[k={k},{e}]")),
-                        _ => {}
-                    }
-                    // and the continued history must itself be recoverable
-                    run2.host = None;
-                    if let Err(e) = recover_filesystem_store(&dir, RecoveryAccessMode::ReadOnly) {
-                        fails.push(format!("wal:continued-log-unrecoverable[k={k},{}]", rec_class(&e)));
-                    }
+            };
+            let mut ok = true;
+            for op in ops.iter().filter(|o| !matches!(o, Op::Fault(_) | Op::Kill(_) | Op::Reopen)) {
+                if let Err(e) = run2.apply(op) {
+                    fails.push(format!("wal:continue-op-failed[k={k},{op:?},{e}]"));
+                    ok = false;
+                    break;
                 }
+            }
+            if !ok {
+                continue;
+            }
+            for (i, id) in &snaps[j].3 {
+                if run2.ids.get(i) != Some(id) {
+                    fails.push(format!("wal:retry-not-deduplicated[k={k},s{i}]"));
+                }
+                if !run2.log.iter().any(|l| l == &format!("s{i}:dup")) {
+                    fails.push(format!("wal:retry-of-acked-submission-not-duplicate[k={k},s{i}]"));
+                }
+            }
+            // (with injected faults the original run skipped operations the retry performs)
+            let has_fault = ops.iter().any(|o| matches!(o, Op::Fault(_) | Op::Kill(_)));
+            if let (Some(last), Some(fin), false) = (run2.snaps.last(), &final_obs, has_fault) {
+                let got = &last.2;
+                if got.subs != fin.subs || got.state_root != fin.state_root || got.frontier_tick != fin.frontier_tick {
+                    fails.push(format!(
+                        "wal:continued-host-diverges[k={k},root={},subs={},log={}]",
+                        got.state_root == fin.state_root,
+                        got.subs == fin.subs,
+                        run2.log.join("/")
+                    ));
+                }
+            }
+            fails.extend(run2.fails.drain(..));
+            run2.host = None;
+            if let Err(e) = recover_filesystem_store(&dir2, RecoveryAccessMode::ReadOnly) {
+                fails.push(format!("wal:continued-log-unrecoverable[k={k},{}]", rec_class(&e)));
             }
         }
     }
+    // the final directory itself must recover to what the caller saw last
+    match (open_host(&root), &final_obs) {
+        (Ok(mut h), Some(fin)) => match observe(&mut h, &all_ids) {
+            Ok((got, _)) => {
+                if got != *fin {
+                    fails.push("wal:final-recovery-differs-from-last-visible-state".into());
+                }
+            }
+            Err(e) => fails.push(format!("wal:final-recovery-observe-failed[{e}]")),
+        },
+        (Err(e), _) => fails.push(format!("wal:final-recovery-failed[{e}]")),
+        _ => {}
+    }
     let _ = fs::remove_dir_all(&dir);
+    let _ = fs::remove_dir_all(&dir2);
     let _ = fs::remove_dir_all(&root);
-    fails.sort();
-    fails.dedup_by_key(|f| f.split('[').next().unwrap_or("").to_string());
-    let txs = match recover_wal_segment_bytes(WalSegmentId::from_raw(1), &seg, RecoveryAccessMode::ReadOnly) {
-        Ok(r) => report_txs(&r.report).join(";"),
-        Err(_) => String::new(),
-    };
+    let txs = bytes_res(&seg).1.unwrap_or_default().join(";");
     format!(
         "len={} seg={} ends={} txs={} pref={} log={} reopened={} continued={} oracle={}",
         seg.len(),
         tohex(&seg),
-        ends.iter().map(|(e, k)| format!("{e}:{k}")).collect::<Vec<_>>().join(","),
+        ends_str(&ends),
         if txs.is_empty() { "-".into() } else { txs },
         rle(&pref),
         run.log.join("/"),
         reopened,
         continued,
-        if fails.is_empty() { "ok".into() } else { format!("FAIL:{}", fails.join(",")) }
+        uniq(fails)
     )
 }
 
 // ------------------------------------------------------------------------------------------------
-// C11 modes (damage / structural edits) -- filled in below
-fn run_c11(mode: &str, _m: &BTreeMap<String, String>) -> String {
-    format!("oracle=FAIL:wal:unknown-mode[{mode}]")
+// C11: damage and structural edits
+
+fn flip(seg: &[u8], bit: usize) -> Vec<u8> {
+    let mut v = seg.to_vec();
+    v[bit / 8] ^= 1 << (bit % 8);
+    v
+}
+fn zeroed(seg: &[u8], off: usize, len: usize) -> Vec<u8> {
+    let mut v = seg.to_vec();
+    for b in v.iter_mut().skip(off).take(len) {
+        *b = 0;
+    }
+    v
+}
+
+/// Typed error, or a prefix of the committed history: anything else is a violation.
+fn damage_verdict(res: &Result<RecoveryScanReport, WalRecoveryError>, full: &[String]) -> Option<String> {
+    match res {
+        Err(_) => None,
+        Ok(rep) => {
+            let got = report_txs(rep);
+            if is_prefix(&got, full) {
+                None
+            } else {
+                Some(format!("got={},committed={}", got.len(), full.len()))
+            }
+        }
+    }
+}
+
+const ZERO_LENS: [usize; 7] = [1, 2, 4, 8, 16, 32, 64];
+
+fn run_flip(m: &BTreeMap<String, String>) -> String {
+    let log = match store_log_from(m) {
+        Ok(l) => l,
+        Err(e) => return format!("oracle=FAIL:wal:workload-build-failed[{e}]"),
+    };
+    let seg = &log.seg;
+    let nbits = seg.len() * 8;
+    let bits: Vec<usize> = match m.get("bits").map(String::as_str) {
+        Some("all") | None => (0..nbits).collect(),
+        Some(s) => s.split(',').filter_map(|x| x.parse().ok()).filter(|b| *b < nbits).collect(),
+    };
+    let zeros: Vec<(usize, usize)> = match m.get("zeros").map(String::as_str) {
+        Some("all") | None => ZERO_LENS.iter().flat_map(|l| (0..seg.len()).step_by(*l).map(move |o| (o, *l))).collect(),
+        Some("-") => Vec::new(),
+        Some(s) => s.split(',').filter_map(|x| x.split_once(':')).filter_map(|(a, b)| Some((a.parse().ok()?, b.parse().ok()?))).collect(),
+    };
+    let fsn: usize = m.get("fsevery").and_then(|s| s.parse().ok()).unwrap_or(16);
+    let dir = scratch("flip");
+    let mut fails = Vec::new();
+    let mut fres = Vec::with_capacity(bits.len());
+    let mut fs_checked = 0usize;
+    let check = |tag: &str, idx: usize, d: &[u8], fails: &mut Vec<String>, fs_checked: &mut usize| -> String {
+        let r = recover_wal_segment_bytes(WalSegmentId::from_raw(1), d, RecoveryAccessMode::ReadOnly).map(|r| r.report);
+        if d == &seg[..] {
+            return report_res(&r);
+        }
+        if let Some(v) = damage_verdict(&r, &log.txs) {
+            fails.push(format!("wal:damage-accepted-as-different-history[{tag},{v}]"));
+        }
+        if idx % fsn == 0 {
+            *fs_checked += 1;
+            make_root(&dir, d, Some(&log.ledger), None);
+            let fsr = recover_filesystem_store(&dir, RecoveryAccessMode::ReadOnly);
+            if let Some(v) = damage_verdict(&fsr, &log.txs) {
+                fails.push(format!("wal:damage-accepted-as-different-history[fs,{tag},{v}]"));
+            }
+            if report_res(&fsr) != report_res(&r) {
+                fails.push(format!("wal:fs-recovery-differs-from-bytes[{tag},{},{}]", report_res(&fsr), report_res(&r)));
+            }
+        }
+        report_res(&r)
+    };
+    for (i, b) in bits.iter().enumerate() {
+        let d = flip(seg, *b);
+        fres.push(check(&format!("bit={b}"), i, &d, &mut fails, &mut fs_checked));
+    }
+    let mut zres = Vec::with_capacity(zeros.len());
+    for (i, (o, l)) in zeros.iter().enumerate() {
+        let d = zeroed(seg, *o, *l);
+        zres.push(check(&format!("zero={o}:{l}"), i, &d, &mut fails, &mut fs_checked));
+    }
+    let _ = fs::remove_dir_all(&dir);
+    format!(
+        "len={} seg={} ends={} txs={} nbits={} flips={} nzeros={} zeros={} fschecked={} oracle={}",
+        seg.len(),
+        tohex(seg),
+        ends_str(&record_ends(seg)),
+        log.txs.join(";"),
+        bits.len(),
+        rle(&fres),
+        zeros.len(),
+        rle(&zres),
+        fs_checked,
+        uniq(fails)
+    )
+}
+
+/// Splits a segment into its disk records.
+fn records_of(seg: &[u8]) -> Vec<(u8, Vec<u8>)> {
+    let mut out = Vec::new();
+    let mut o = 0;
+    for (e, k) in record_ends(seg) {
+        out.push((k, seg[o..e].to_vec()));
+        o = e;
+    }
+    out
+}
+fn join(recs: &[(u8, Vec<u8>)]) -> Vec<u8> {
+    recs.iter().flat_map(|(_, b)| b.iter().copied()).collect()
+}
+
+/// All single-record structural edits of a log (and transplants from `other`), by name.
+fn edits_of(recs: &[(u8, Vec<u8>)], other: &[(u8, Vec<u8>)]) -> Vec<(String, Vec<(u8, Vec<u8>)>)> {
+    let mut out = Vec::new();
+    let kn = |k: u8| if k == 2 { "c" } else { "f" };
+    for i in 0..recs.len() {
+        let mut v = recs.to_vec();
+        v.remove(i);
+        out.push((format!("del{}:{i}", kn(recs[i].0)), v));
+        let mut v = recs.to_vec();
+        v.insert(i, recs[i].clone());
+        out.push((format!("dup{}:{i}", kn(recs[i].0)), v));
+        // a copy of record i appended at the very end
+        let mut v = recs.to_vec();
+        v.push(recs[i].clone());
+        out.push((format!("app{}:{i}", kn(recs[i].0)), v));
+        if i + 1 < recs.len() {
+            let mut v = recs.to_vec();
+            v.swap(i, i + 1);
+            out.push((format!("swap{}{}:{i}", kn(recs[i].0), kn(recs[i + 1].0)), v));
+        }
+    }
+    // commit markers exchanged (every pair)
+    let cpos: Vec<usize> = recs.iter().enumerate().filter(|(_, r)| r.0 == 2).map(|(i, _)| i).collect();
+    for a in 0..cpos.len() {
+        for b in a + 1..cpos.len() {
+            let mut v = recs.to_vec();
+            v.swap(cpos[a], cpos[b]);
+            out.push((format!("xchgc:{}:{}", cpos[a], cpos[b]), v));
+        }
+    }
+    for (j, r) in other.iter().enumerate() {
+        for i in [0usize, recs.len() / 2, recs.len()] {
+            let mut v = recs.to_vec();
+            v.insert(i.min(recs.len()), r.clone());
+            out.push((format!("ins{}:{j}@{i}", kn(r.0)), v));
+        }
+        if j < recs.len() {
+            let mut v = recs.to_vec();
+            v[j] = r.clone();
+            out.push((format!("repl{}:{j}", kn(r.0)), v));
+        }
+    }
+    // a whole transaction of the other log appended / prepended
+    if !other.is_empty() {
+        let mut first_tx: Vec<(u8, Vec<u8>)> = Vec::new();
+        for r in other {
+            first_tx.push(r.clone());
+            if r.0 == 2 {
+                break;
+            }
+        }
+        let mut v = recs.to_vec();
+        v.extend(first_tx.clone());
+        out.push(("apptx:0".into(), v));
+        let mut v = first_tx;
+        v.extend(recs.to_vec());
+        out.push(("pretx:0".into(), v));
+    }
+    out
+}
+
+fn edit_signature(name: &str) -> &'static str {
+    if name.starts_with("delc") {
+        "wal:commit-marker-removed-accepted"
+    } else if name.starts_with("dupc") || name.starts_with("appc") {
+        "wal:commit-marker-duplicated-accepted"
+    } else if name.starts_with("xchgc") || name.starts_with("swapcc") {
+        "wal:commit-markers-reordered-accepted"
+    } else if name.starts_with("ins") || name.starts_with("repl") || name.starts_with("apptx") || name.starts_with("pretx") {
+        "wal:transplanted-record-accepted"
+    } else {
+        "wal:edited-log-accepted-as-different-history"
+    }
+}
+
+fn run_edit(m: &BTreeMap<String, String>) -> String {
+    let log = match store_log_from(m) {
+        Ok(l) => l,
+        Err(e) => return format!("oracle=FAIL:wal:workload-build-failed[{e}]"),
+    };
+    let oseed: u64 = m.get("oseed").and_then(|s| s.parse().ok()).unwrap_or(77);
+    let other = match build_store_log(oseed, &list_usize(m, "oshape", &[2, 1]), &list_usize(m, "pay", &[4]), &[]) {
+        Ok(l) => l,
+        Err(e) => return format!("oracle=FAIL:wal:workload-build-failed[{e}]"),
+    };
+    let recs = records_of(&log.seg);
+    let orecs = records_of(&other.seg);
+    let dir = scratch("edit");
+    let mut fails = Vec::new();
+    let mut out = Vec::new();
+    for (name, v) in edits_of(&recs, &orecs) {
+        let d = join(&v);
+        // layer 1: bytes
+        let r1 = recover_wal_segment_bytes(WalSegmentId::from_raw(1), &d, RecoveryAccessMode::ReadOnly).map(|r| r.report);
+        // layer 2: filesystem store (read-only), layer 3: store opened as a writer
+        make_root(&dir, &d, Some(&log.ledger), None);
+        let r2 = recover_filesystem_store(&dir, RecoveryAccessMode::ReadOnly);
+        let r3 = match StoreRun::open(dir.clone()) {
+            Ok(run) => format!("open/{}", run.acked.len()),
+            Err(e) => format!("err/{e}"),
+        };
+        if d != log.seg {
+            if let Some(v) = damage_verdict(&r1, &log.txs) {
+                fails.push(format!("{}[bytes,{name},{v}]", edit_signature(&name)));
+            }
+            if let Some(v) = damage_verdict(&r2, &log.txs) {
+                fails.push(format!("{}[fs,{name},{v}]", edit_signature(&name)));
+            }
+        }
+        out.push(format!("{name}={}|{}|{}", report_res(&r1), report_res(&r2), r3));
+    }
+    let _ = fs::remove_dir_all(&dir);
+    format!(
+        "len={} seg={} ends={} oseg={} oends={} txs={} edits={} oracle={}",
+        log.seg.len(),
+        tohex(&log.seg),
+        ends_str(&record_ends(&log.seg)),
+        tohex(&other.seg),
+        ends_str(&record_ends(&other.seg)),
+        log.txs.join(";"),
+        out.join(";"),
+        uniq(fails)
+    )
+}
+
+/// recover_from_frames_and_commits on edited frame / commit vectors built by the real builders.
+fn run_api(m: &BTreeMap<String, String>) -> String {
+    let log = match store_log_from(m) {
+        Ok(l) => l,
+        Err(e) => return format!("oracle=FAIL:wal:workload-build-failed[{e}]"),
+    };
+    let frames: Vec<WalFrame> = log.txv.iter().flat_map(|t| t.frames.iter().cloned()).collect();
+    let commits: Vec<WalTransactionCommit> = log.txv.iter().map(|t| t.commit.clone()).collect();
+    let full = log.txs.clone();
+    let mut fails = Vec::new();
+    let mut out = Vec::new();
+    let mut run = |name: String, f: Vec<WalFrame>, c: Vec<WalTransactionCommit>, fails: &mut Vec<String>, must_detect: bool| {
+        let r = recover_from_frames_and_commits(&f, &c, RecoveryAccessMode::ReadOnly);
+        if let Some(v) = damage_verdict(&r, &full) {
+            fails.push(format!("{}[api,{name},{v}]", edit_signature(&name)));
+        } else if must_detect {
+            if let Ok(rep) = &r {
+                if report_txs(rep).len() == full.len() && matches!(rep.tail_posture, RecoveryTailPosture::Clean) {
+                    fails.push(format!("wal:frame-edit-undetected[api,{name}]"));
+                }
+            }
+        }
+        out.push(format!("{name}={}", report_res(&r)));
+    };
+    run("id".into(), frames.clone(), commits.clone(), &mut fails, false);
+    for i in 0..commits.len() {
+        let mut c = commits.clone();
+        c.remove(i);
+        run(format!("delc:{i}"), frames.clone(), c, &mut fails, false);
+        let mut c = commits.clone();
+        c.insert(i, commits[i].clone());
+        run(format!("dupc:{i}"), frames.clone(), c, &mut fails, false);
+        if i + 1 < commits.len() {
+            let mut c = commits.clone();
+            c.swap(i, i + 1);
+            run(format!("swapcc:{i}"), frames.clone(), c, &mut fails, false);
+        }
+    }
+    for i in 0..frames.len() {
+        let mut f = frames.clone();
+        f.remove(i);
+        run(format!("delf:{i}"), f, commits.clone(), &mut fails, true);
+        let mut f = frames.clone();
+        f.insert(i, frames[i].clone());
+        run(format!("dupf:{i}"), f, commits.clone(), &mut fails, true);
+        if i + 1 < frames.len() {
+            let mut f = frames.clone();
+            f.swap(i, i + 1);
+            run(format!("swapff:{i}"), f, commits.clone(), &mut fails, false);
+        }
+        // a re-sealed frame with a different payload: integrity passes, the records root must not
+        let mut f = frames.clone();
+        let mut p = f[i].payload.clone();
+        p.canonical_bytes.push(0x5a);
+        let mut h = f[i].header.clone();
+        h.payload_digest = p.digest();
+        h.payload_len = p.canonical_bytes.len() as u64;
+        f[i] = WalFrame::new(h, p);
+        run(format!("resealf:{i}"), f, commits.clone(), &mut fails, true);
+        // raw field tampering without re-sealing
+        let mut f = frames.clone();
+        f[i].header.transaction_local_index =
+            warp_core::causal_wal::TransactionLocalIndex::from_raw(f[i].header.transaction_local_index.as_u32() + 1);
+        run(format!("idxf:{i}"), f, commits.clone(), &mut fails, true);
+        let mut f = frames.clone();
+        f[i].payload.canonical_bytes.push(1);
+        run(format!("payf:{i}"), f, commits.clone(), &mut fails, true);
+    }
+    for i in 0..commits.len() {
+        let mut c = commits.clone();
+        c[i].record_count += 1;
+        run(format!("cntc:{i}"), frames.clone(), c, &mut fails, true);
+        let mut c = commits.clone();
+        c[i].records_root[0] ^= 1;
+        run(format!("rootc:{i}"), frames.clone(), c, &mut fails, true);
+        let mut c = commits.clone();
+        c[i].previous_committed_transaction_digest[0] ^= 1;
+        run(format!("prevc:{i}"), frames.clone(), c, &mut fails, true);
+    }
+    format!("seg={} txs={} edits={} oracle={}", tohex(&log.seg), full.join(";"), out.join(";"), uniq(fails))
+}
+
+/// Ledger / manifest tampering on a store-level log.
+fn run_meta(m: &BTreeMap<String, String>) -> String {
+    let log = match store_log_from(m) {
+        Ok(l) => l,
+        Err(e) => return format!("oracle=FAIL:wal:workload-build-failed[{e}]"),
+    };
+    let dir = scratch("meta");
+    let mut fails = Vec::new();
+    let mut out = Vec::new();
+    let open_res = |dir: &Path| -> String {
+        match StoreRun::open(dir.to_path_buf()) {
+            Ok(r) => format!("open/{}", r.acked.len()),
+            Err(e) => format!("err/{e}"),
+        }
+    };
+    // ledger: bit flips (every `every`-th bit), truncations, deletion
+    let every: usize = m.get("every").and_then(|s| s.parse().ok()).unwrap_or(7);
+    let mut lres = Vec::new();
+    for b in (0..log.ledger.len() * 8).step_by(every.max(1)) {
+        let l = flip(&log.ledger, b);
+        make_root(&dir, &log.seg, Some(&l), None);
+        let r = open_res(&dir);
+        if r.starts_with("open/") {
+            fails.push(format!("wal:ledger-damage-undetected[bit={b},{r}]"));
+        }
+        lres.push(r);
+    }
+    out.push(format!("ledgerflips={}", rle(&lres)));
+    let mut tres = Vec::new();
+    for n in 0..log.ledger.len() {
+        make_root(&dir, &log.seg, Some(&log.ledger[..n]), None);
+        let r = open_res(&dir);
+        if r.starts_with("open/") {
+            fails.push(format!("wal:ledger-truncation-undetected[len={n}]"));
+        }
+        tres.push(r);
+    }
+    out.push(format!("ledgertrunc={}", rle(&tres)));
+    make_root(&dir, &log.seg, None, None);
+    let r = open_res(&dir);
+    if r.starts_with("open/") && !log.txs.is_empty() {
+        fails.push("wal:missing-ledger-undetected".into());
+    }
+    out.push(format!("ledgermissing={r}"));
+    // manifest: publish the true manifest with the real store, then tamper with manifest and segment
+    make_root(&dir, &log.seg, Some(&log.ledger), None);
+    let last = log.txv.last().map(|t| t.commit.clone());
+    let manifest = WalManifest {
+        manifest_digest: digest("manifest"),
+        last_committed_lsn: last.as_ref().map(|c| c.last_lsn),
+        last_commit_digest: last.as_ref().map(|c| c.commit_digest),
+        sealed_segment_count: 1,
+    };
+    match StoreRun::open(dir.clone()) {
+        Ok(mut run) => {
+            if let Err(e) = run.store.publish_manifest(run.epoch, manifest) {
+                fails.push(format!("wal:manifest-publish-failed[{}]", store_class(&e)));
+            }
+        }
+        Err(e) => fails.push(format!("wal:reopen-after-crash-failed[{e}]")),
+    }
+    let mbytes = fs::read(dir.join("manifest.ecwal")).unwrap_or_default();
+    let vr = |dir: &Path| match validate_filesystem_manifest(dir) {
+        Ok(_) => "ok".to_string(),
+        Err(e) => format!("err/{}", store_class(&e)),
+    };
+    let base = vr(&dir);
+    if base != "ok" {
+        fails.push(format!("wal:true-manifest-rejected[{base}]"));
+    }
+    let mut mres = Vec::new();
+    for b in 0..mbytes.len() * 8 {
+        if b / 8 < 32 {
+            continue; // manifest_digest is an opaque caller-supplied label, compared with nothing
+        }
+        fs::write(dir.join("manifest.ecwal"), flip(&mbytes, b)).expect("write");
+        let r = vr(&dir);
+        if r == "ok" {
+            fails.push(format!("wal:manifest-damage-undetected[bit={b}]"));
+        }
+        mres.push(r);
+    }
+    out.push(format!("manifestflips={}", rle(&mres)));
+    // the manifest pins the last commit: dropping the last transaction from the segment must be noticed
+    fs::write(dir.join("manifest.ecwal"), &mbytes).expect("write");
+    let ends = record_ends(&log.seg);
+    let commit_ends: Vec<usize> = ends.iter().filter(|(_, k)| *k == 2).map(|(e, _)| *e).collect();
+    if commit_ends.len() >= 2 {
+        let cut = commit_ends[commit_ends.len() - 2];
+        fs::write(seg_path(&dir), &log.seg[..cut]).expect("write");
+        let r = vr(&dir);
+        if r == "ok" {
+            fails.push("wal:manifest-misses-dropped-transaction".into());
+        }
+        out.push(format!("manifestdrop={r}"));
+    }
+    let _ = fs::remove_dir_all(&dir);
+    format!("seg={} ledger={} {} oracle={}", tohex(&log.seg), tohex(&log.ledger), out.join(" "), uniq(fails))
+}
+
+/// Structural edits / bit flips of a log written by the real host, reopened by the real host.
+fn run_hostedit(m: &BTreeMap<String, String>) -> String {
+    let (_ops, root, run) = parse_host(m);
+    let mut run = match run {
+        Ok(r) => r,
+        Err(e) => return format!("oracle=FAIL:wal:host-open-failed[{e}]"),
+    };
+    let mut fails = std::mem::take(&mut run.fails);
+    let snaps = std::mem::take(&mut run.snaps);
+    let all_ids = run.ids.clone();
+    let seg = fs::read(seg_path(&root)).unwrap_or_default();
+    let ledger = fs::read(ledger_path(&root)).unwrap_or_default();
+    let full = bytes_res(&seg).1.unwrap_or_default();
+    let recs = records_of(&seg);
+    let dir = scratch("hedit");
+    let mut out = Vec::new();
+    let bits = list_usize(m, "bits", &[]);
+    let mut variants: Vec<(String, Vec<u8>)> = edits_of(&recs, &[]).into_iter().map(|(n, v)| (n, join(&v))).collect();
+    for b in bits {
+        if b < seg.len() * 8 {
+            variants.push((format!("bit:{b}"), flip(&seg, b)));
+        }
+    }
+    // distinct states the original run went through (= what committed prefixes look like)
+    let mut prefixes: Vec<&Obs> = Vec::new();
+    for s in &snaps {
+        if !prefixes.iter().any(|p| **p == s.2) {
+            prefixes.push(&s.2);
+        }
+    }
+    for (name, d) in variants {
+        if d == seg {
+            continue;
+        }
+        let (b1, _) = bytes_res(&d);
+        make_root(&dir, &d, Some(&ledger), None);
+        let hres = match open_host(&dir) {
+            Err(e) => format!("err/{e}"),
+            Ok(mut h) => match observe(&mut h, &all_ids) {
+                Err(e) => format!("err/observe.{e}"),
+                Ok((got, _)) => match prefixes.iter().position(|p| p.subs == got.subs && p.state_root == got.state_root && p.frontier_tick == got.frontier_tick) {
+                    Some(i) if prefixes[i].committed == got.committed => format!("ok/prefix{i}/{}", got.committed),
+                    Some(i) => {
+                        fails.push(format!("{}[host-count,{name},committed={}/{}]", edit_signature(&name), got.committed, prefixes[i].committed));
+                        format!("ok/prefix{i}-count{}", got.committed)
+                    }
+                    None => {
+                        fails.push(format!("{}[host,{name},committed={}]", edit_signature(&name), got.committed));
+                        format!("ok/DIFFERENT/{}", got.committed)
+                    }
+                },
+            },
+        };
+        out.push(format!("{name}={b1}|{hres}"));
+    }
+    let _ = fs::remove_dir_all(&dir);
+    let _ = fs::remove_dir_all(&root);
+    format!(
+        "len={} seg={} ends={} txs={} log={} edits={} oracle={}",
+        seg.len(),
+        tohex(&seg),
+        ends_str(&record_ends(&seg)),
+        full.join(";"),
+        run.log.join("/"),
+        out.join(";"),
+        uniq(fails)
+    )
 }
 
 fn main() {
@@ -1042,9 +1737,15 @@ fn main() {
         let mode = m.get("mode").cloned().unwrap_or_default();
         let out = match catch(std::panic::AssertUnwindSafe(|| match mode.as_str() {
             "store" => run_store(&m),
+            "rewrite" => run_rewrite(&m),
             "bytes" => run_bytes(&m),
             "host" => run_host(&m),
-            other => run_c11(other, &m),
+            "flip" => run_flip(&m),
+            "edit" => run_edit(&m),
+            "api" => run_api(&m),
+            "meta" => run_meta(&m),
+            "hostedit" => run_hostedit(&m),
+            other => format!("oracle=FAIL:wal:unknown-mode[{other}]"),
         })) {
             Ok(s) => s,
             Err(p) => format!("oracle=FAIL:wal:harness-panic[{}]", p.replace(' ', "_").chars().take(160).collect::<String>()),
